@@ -1404,3 +1404,209 @@ def rule_prune(trees):
                     res.bad("S-PRUNE:difference:keeps-empty", where, "PrefixTree%d::difference keeps keys whose subtree became empty" % n)
     res.sample({"methods": ["remove", "remove_restriction", "insert_restriction", "mapped", "difference"], "arities": "1..9"})
     return res
+
+
+# ---------------------------------------------------------------------------------------------------------------------
+# S-MIRROR: left/right symmetry of the weight-balanced tree
+
+_MIRROR_SWAP = {"left": "right", "right": "left", "l": "r", "r": "l", "Less": "Greater", "Greater": "Less"}
+_SPATIAL = re.compile(r"(?<![A-Za-z0-9])(left|right)(?![A-Za-z0-9])")
+
+
+def _mirror_ident(s):
+    return re.sub(r"[A-Za-z0-9]+", lambda m: _MIRROR_SWAP.get(m.group(0), m.group(0)), s)
+
+
+def _mirror_canon(n, mirror):
+    """Canonical form of a syntax tree, optionally reflected: identifier components left/right, l/r, Less/Greater are exchanged;
+    in tuples, tuple patterns and argument lists the components that name a side (`left`, `new_right`, `r_left`, ..) exchange
+    their positions among themselves (`join(l, k, v, r)` -> `join(r', k, v, l')`, `(new_left, found, new_right)` reversed);
+    struct literals and struct patterns are unordered; string literals and macro arguments are ignored."""
+    if isinstance(n, list):
+        return [_mirror_canon(x, mirror) for x in n]
+    if not isinstance(n, dict):
+        if isinstance(n, str) and mirror:
+            return _mirror_ident(n)
+        return n
+    k = n.get("k")
+    if k == "lit":
+        v = n.get("v", "")
+        return {"k": "lit", "v": "STR" if v.startswith(("\"", "r\"", "r#")) else v, "_ln": n.get("ln")}
+    if k == "macro":
+        return {"k": "macro", "p": n.get("p"), "_ln": n.get("ln")}
+    out = {}
+    for key, v in n.items():
+        if key == "ln":
+            out["_ln"] = v
+        elif key == "end":
+            continue
+        elif key == "k":
+            out["k"] = v
+        else:
+            out[key] = _mirror_canon(v, mirror)
+    if mirror:
+        lst_key = {"tuple": "e", "ptuple": "e", "call": "a", "mcall": "a"}.get(k)
+        if lst_key and isinstance(n.get(lst_key), list):
+            orig = n[lst_key]
+            pos = [i for i, x in enumerate(orig) if _SPATIAL.search(json.dumps(strip_ln(x)))]
+            if len(pos) >= 2:
+                vals = [out[lst_key][i] for i in pos]
+                for i, v in zip(pos, reversed(vals)):
+                    out[lst_key][i] = v
+    if k == "block" and isinstance(out.get("s"), list):
+        # runs of consecutive, mutually independent, effect-free `let <name> = <expr>` are unordered
+        stmts, i, res_s = out["s"], 0, []
+
+        def pure_let(st):
+            return kind(st) == "let" and kind(st.get("p")) == "pid" and st.get("e") is not None \
+                and not any(kind(x) in ("call", "mcall", "macro", "closure", "assign", "try") for x in walk(st["e"]))
+        while i < len(stmts):
+            j = i
+            while j < len(stmts) and pure_let(stmts[j]):
+                j += 1
+            run_ = stmts[i:j]
+            names = {st["p"]["n"] for st in run_}
+            if len(run_) >= 2 and not any(kind(x) == "path" and x.get("p") in names for st in run_ for x in walk(st["e"])):
+                run_ = sorted(run_, key=lambda x: (json.dumps(_drop_ln(x["e"]), sort_keys=True), json.dumps(_drop_ln(x), sort_keys=True)))
+            res_s.extend(run_)
+            if j == i:
+                res_s.append(stmts[i])
+                j = i + 1
+            i = j
+        out["s"] = res_s
+    if k in ("struct", "pstruct") and isinstance(out.get("f"), list):
+        out["f"] = sorted(out["f"], key=lambda x: json.dumps(_drop_ln(x), sort_keys=True))
+    return out
+
+
+def _drop_ln(n):
+    if isinstance(n, list):
+        return [_drop_ln(x) for x in n]
+    if isinstance(n, dict):
+        return {k: _drop_ln(v) for k, v in n.items() if k != "_ln"}
+    return n
+
+
+def _alpha(n):
+    """Names bound inside the compared region (identifier patterns) are replaced by the number of their first binding, so a
+    local renamed on one side only is not a deviation."""
+    names = {}
+
+    def collect(x):
+        if isinstance(x, dict):
+            if x.get("k") == "pid" and isinstance(x.get("n"), str):
+                names.setdefault(x["n"], "$%d" % len(names))
+            for v in x.values():
+                collect(v)
+        elif isinstance(x, list):
+            for v in x:
+                collect(v)
+
+    def rename(x):
+        if isinstance(x, dict):
+            out = {}
+            for key, v in x.items():
+                if key == "n" and x.get("k") == "pid" and v in names:
+                    out[key] = names[v]
+                elif key == "p" and x.get("k") == "path" and v in names:
+                    out[key] = names[v]
+                else:
+                    out[key] = rename(v)
+            return out
+        if isinstance(x, list):
+            return [rename(v) for v in x]
+        return x
+    collect(n)
+    return rename(n)
+
+
+def _mirror_diff(a, b, ln=None):
+    """First difference between two canonical trees: (line on the b side, description) or None."""
+    if isinstance(a, dict) and isinstance(b, dict):
+        ln = b.get("_ln", ln)
+        if a.get("k") != b.get("k"):
+            return ln, "`%s` node where the reflection of its twin has `%s`" % (b.get("k"), a.get("k"))
+        for key in sorted(set(a) | set(b)):
+            if key == "_ln":
+                continue
+            if key not in a or key not in b:
+                return ln, "`%s` present on one side only" % key
+            d = _mirror_diff(a[key], b[key], ln)
+            if d:
+                return d
+        return None
+    if isinstance(a, list) and isinstance(b, list):
+        for x, y in zip(a, b):
+            d = _mirror_diff(x, y, ln)
+            if d:
+                return d
+        if len(a) != len(b):
+            return ln, "%d elements where the reflection of the twin has %d" % (len(b), len(a))
+        return None
+    if a != b:
+        return ln, "`%s` where the reflection of the twin has `%s`" % (b, a)
+    return None
+
+
+def rule_mirror(trees):
+    """S-MIRROR: the weight-balanced tree is symmetric under exchanging left and right. Each pair below is two hand-written
+    copies of one piece of code; the reflection of the first (see _mirror_canon) must be the second, syntactically:
+      rotate_left / rotate_right (whole bodies); the right-heavy and the left-heavy branch of `balance` and of `join`
+      (condition and block); the Less and the Greater arm of the key comparison in insert_simple, remove_existing_node, split,
+      get and get_mut.
+    A one-sided edit (a size update, a rebalancing call, a threshold, a child, the order of the joined parts dropped or changed
+    on one side only) is reported with the line of the deviating twin."""
+    res = RuleResult("S-MIRROR")
+    t = trees["eqlog-runtime/src/wbtree/map.rs"]
+    if "error" in t:
+        raise AnchorError("map.rs does not parse")
+    loc = "eqlog-runtime/src/wbtree/map.rs"
+    fns = {}
+    for qn, fn, imp in find_fns(t["items"]):
+        if imp is not None and imp["trait"] is None and any(x in nospace(imp["ty"]) for x in ("Node<", "WBTreeMap<")):
+            fns.setdefault(fn["n"], (qn, fn))
+    pairs = []          # (function, what, node a, node b, line)
+
+    def need(name):
+        if name not in fns:
+            raise AnchorError("S-MIRROR: function %s of the ordered map not found" % name)
+        return fns[name]
+    ql, fl = need("rotate_left")
+    qr, fr = need("rotate_right")
+    pairs.append(("rotate", "rotate_left/rotate_right", fl["b"], fr["b"], fr["ln"]))
+    for name in ("balance", "join"):
+        qn, fn = need(name)
+        chains = [x for x in walk(fn["b"]) if kind(x) == "if" and kind(x.get("e")) == "if" and kind(x["c"]) == "bin" and kind(x["e"]["c"]) == "bin"
+                  and _SPATIAL.search(json.dumps(strip_ln(x["c"]))) and _SPATIAL.search(json.dumps(strip_ln(x["e"]["c"])))]
+        if len(chains) != 1:
+            raise AnchorError("S-MIRROR: %s has %d `if <one side heavy> .. else if <other side heavy>` chains, expected 1" % (name, len(chains)))
+        c = chains[0]
+        pairs.append((name, "heavy-side condition", c["c"], c["e"]["c"], c["e"]["ln"]))
+        pairs.append((name, "heavy-side branch", c["t"], c["e"]["t"], c["e"]["ln"]))
+    for name in ("insert_simple", "remove_existing_node", "split", "get", "get_mut"):
+        qn, fn = need(name)
+        cmps = [x for x in walk(fn["b"]) if kind(x) == "match" and mcall(x["e"], "cmp")]
+        if len(cmps) != 1:
+            raise AnchorError("S-MIRROR: %s has %d `match <key>.cmp(..)`, expected 1" % (name, len(cmps)))
+        arms = {}
+        for arm in cmps[0]["arms"]:
+            pat = arm["p"].get("p", "") if kind(arm["p"]) == "ppath" else ""
+            arms[pat.split("::")[-1]] = arm
+        if "Less" not in arms or "Greater" not in arms:
+            raise AnchorError("S-MIRROR: the key comparison of %s has no Less/Greater arms" % name)
+        pairs.append((name, "Less/Greater arm", arms["Less"]["b"], arms["Greater"]["b"], arms["Greater"]["ln"]))
+    for name, what, a, b, ln in pairs:
+        ca, cb = _alpha(_mirror_canon(a, True)), _alpha(_mirror_canon(b, False))
+        d = _mirror_diff(ca, cb, ln)
+        if d is None:
+            res.ok()
+        else:
+            res.bad("S-MIRROR:%s:%s" % (name, what.split()[0].split("/")[0].lower()), "%s:%s %s" % (loc, d[0] or ln, name),
+                    "%s of %s is not the left/right reflection of its twin: %s" % (what, name, d[1]))
+    # the reflection is not the identity: a rule that compares a thing with itself passes forever
+    ca, cb = _mirror_canon(fl["b"], False), _mirror_canon(fr["b"], False)
+    if _mirror_diff(ca, cb) is None:
+        raise AnchorError("S-MIRROR: rotate_left and rotate_right are identical without reflection")
+    res.ok()
+    res.sample({"pairs": ["%s: %s" % (p[0], p[1]) for p in pairs]})
+    return res
